@@ -7,6 +7,7 @@ rationals (C18/Exec.v); Python only prints literals.  Verdict -1 = borderline-sk
 decision / weighted-median step of the float code is closer to its threshold than the rounding
 tolerance): counted, not compared.
 """
+import copy
 import json
 import math
 import os
@@ -183,6 +184,116 @@ def mk(v, ct):
     return a
 
 
+# ----------------------------------------------------------------------------
+# call history.  A *sequence* is a list of calls of one routine made in ONE process on the SAME argument objects,
+# whose contents are overwritten in place between the calls (a[...] = new values; lst[:] = new values), with a
+# step on fresh objects of equal contents in between.  A step is an ordinary case that carries its predecessors in
+# c["hist"]; run_impl() replays them first, so every step (and every replay file) is self-contained.  While a
+# sequence runs, A(c, k) hands out the object created for argument k by an earlier step whenever shape, dtype and
+# container agree.
+# ----------------------------------------------------------------------------
+_ARENA = None
+
+
+def A(c, k):
+    """argument k of case c as the object passed to esutil"""
+    import numpy as np
+    v, ct = c[k], ct_of(c, k)
+    new = mk(v, ct)
+    if _ARENA is None or v is None or ct in ("scalar", "0d"):
+        return new
+    old = _ARENA.get(k)
+    if isinstance(old, np.ndarray) and isinstance(new, np.ndarray) and old.shape == new.shape and old.dtype == new.dtype \
+            and old.flags["C_CONTIGUOUS"] == new.flags["C_CONTIGUOUS"]:
+        old[...] = new                       # same object, contents changed in place
+        return old
+    if isinstance(old, list) and isinstance(new, list) and len(old) == len(new):
+        old[:] = new
+        return old
+    _ARENA[k] = new
+    return new
+
+
+def run_impl(ent, c):
+    """the call of case c, preceded (same process, same argument objects) by the calls of its history"""
+    global _ARENA
+    if not c.get("hist"):
+        return ent.impl(c)
+    _ARENA = {}
+    try:
+        for h in c["hist"]:
+            if h.get("fresh"):
+                _ARENA = {}
+            ent.impl(h)
+        if c.get("fresh"):
+            _ARENA = {}
+        return ent.impl(c)
+    finally:
+        _ARENA = None
+
+
+def _same_out(a, b):
+    return json.dumps(a, sort_keys=True, default=str) == json.dumps(b, sort_keys=True, default=str)
+
+
+# value transformations that keep shape, container and the preconditions of the routines
+def _fit(v, ct):
+    """round to the container; None when the container cannot hold the values"""
+    if ct == "f4":
+        v = f4ify(v)
+        return v if all(abs(t) < 3e38 for t in _flat(v)) else None
+    if ct in ("i4", "i8"):
+        return v if _integral(v) else None
+    return v
+
+
+def _map(v, f):
+    return [_map(t, f) for t in v] if isinstance(v, list) else f(v)
+
+
+def tx_vec(r, v, ct, modes=("reverse", "scale", "negshift", "interior")):
+    """another value of the same shape for a data / weight argument (1-d, or rows of an N-by-d array)"""
+    for mode in r.sample(list(modes), len(modes)):
+        if mode == "reverse":
+            y = v[::-1]
+        elif mode == "scale":
+            y = _map(v, lambda t: t * 2.0)
+        elif mode == "negshift":
+            y = _map(v, lambda t: 1.0 - t)
+        else:                                # equal length, equal first and last element, other interior
+            y = [v[0]] + v[1:-1][::-1] + [v[-1]] if len(v) > 3 else None
+        y = None if y is None else _fit(y, ct)
+        if y is not None and y != v:
+            return y, mode
+    return v, "same"
+
+
+def _strip(c):
+    return {k: v for k, v in c.items() if k not in ("hist", "fresh")}
+
+
+def make_sequences(ent, ctx, nseq):
+    """nseq sequences of six calls: c, c again (same objects, same contents), variant 1 written into the same objects,
+    c on FRESH objects of equal contents, variant 2 in place, c restored in place"""
+    r = ctx.rng
+    out = []
+    pool = [c for c in ent.cases(ctx, 1) if ent.seq_ok(c)]
+    for c in pool[:nseq]:
+        c = _strip(c)
+        v1, t1 = ent.variant(r, c)
+        v2, t2 = ent.variant(r, c)
+        steps = [(c, "first", False), (c, "again", False), (v1, "inplace:" + t1, False), (c, "fresh-equal", True),
+                 (v2, "inplace:" + t2, False), (c, "restored", False)]
+        hist = []
+        for st, tag, fresh in steps:
+            d = dict(copy.deepcopy(_strip(st)), hist=copy.deepcopy(hist), fresh=fresh)
+            d["family"] = "seq:%s" % tag.split(":")[0] + _ctfam(c)
+            d["seq"] = tag
+            out.append(d)
+            hist.append(dict(copy.deepcopy(_strip(st)), fresh=fresh))
+    return out
+
+
 def ct_of(c, k):
     ct = c.get("ct") or {}
     if k in ct:
@@ -264,6 +375,22 @@ def _weights_equal(w):
 class E(Entry):
     shard = 20
     search_rounds = 1
+    seq_args = ("x", "w")          # array arguments rewritten in place by the sequences
+
+    def seq_ok(self, c):
+        return all(c.get(k) is None or (isinstance(c[k], list) and len(c[k]) >= 2) for k in self.seq_args) \
+            and isinstance(c.get(self.seq_args[0]), list)
+
+    def variant(self, r, c):
+        """(case with the same shapes and containers but other values, tag)"""
+        d = copy.deepcopy(c)
+        tags = []
+        for k in self.seq_args:
+            if d.get(k) is not None:
+                modes = ("reverse", "scale", "interior") if k in ("w", "d") else ("reverse", "scale", "negshift", "interior")
+                d[k], t = tx_vec(r, d[k], ct_of(c, k), modes)
+                tags.append("%s=%s" % (k, t))
+        return d, ",".join(tags)
 
 
 class WMom(E):
@@ -273,7 +400,7 @@ class WMom(E):
     def cases(self, ctx, round=0):
         r = ctx.rng
         cs = []
-        for _ in range(ctx.n(260, 1500) if round == 0 else 150):
+        for _ in range(ctx.n(210, 1500) if round == 0 else 150):
             n = r.choice(sizes(ctx, big=True))
             dk, wk = r.choice(DATA_KINDS), r.choice(WEIGHT_KINDS)
             shape = r.choice(["1d", "1d", "Nd-w1", "Nd-w1", "Nd-wN"])
@@ -315,6 +442,13 @@ class WMom(E):
                        "container": "f8", "family": "rejected-shape"})
             cs.append({"x": [[1.0, 2.0], [3.0, 4.0]], "w": [1.0, 2.0, 3.0], "im": None, "calcerr": True, "sdev": True,
                        "container": "f8", "family": "rejected-shape"})
+            for im0 in (0.0, -0.0, [0.0]):
+                cs.append({"x": [3.0, 4.5, 6.0, 10.0], "w": [1.0, 2.0, 1.0, 0.5], "im": im0, "calcerr": True, "sdev": True,
+                           "family": "inputmean-exactly-zero"})
+            cs.append({"x": [[3.0, 1.0], [4.5, 2.0], [6.0, 4.0]], "w": [1.0, 2.0, 1.0], "im": [0.0, 2.0], "calcerr": True,
+                       "sdev": True, "family": "inputmean-exactly-zero"})
+            cs.append({"x": [[3.0, 1.0], [4.5, 2.0], [6.0, 4.0]], "w": [1.0, 2.0, 1.0], "im": 0.0, "calcerr": False,
+                       "sdev": True, "family": "inputmean-exactly-zero"})
             cs.append({"x": 5.0, "w": 2.0, "im": None, "calcerr": True, "sdev": True, "ct": {"x": "scalar", "w": "scalar"},
                        "family": "scalar-input"})
             cs.append({"x": 5.0, "w": 2.0, "im": 4.5, "calcerr": True, "sdev": True, "ct": {"x": "0d", "w": "0d"},
@@ -326,11 +460,11 @@ class WMom(E):
         import esutil.stat as st
 
         def f():
-            x = c["x"] if (isinstance(c["x"], float) and ct_of(c, "x") != "0d") else mk(c["x"], ct_of(c, "x"))
-            w = c["w"] if (isinstance(c["w"], float) and ct_of(c, "w") != "0d") else mk(c["w"], ct_of(c, "w"))
+            x = c["x"] if (isinstance(c["x"], float) and ct_of(c, "x") != "0d") else A(c, "x")
+            w = c["w"] if (isinstance(c["w"], float) and ct_of(c, "w") != "0d") else A(c, "w")
             im = c["im"]
             if isinstance(im, list):
-                im = mk(im, ct_of(c, "im"))
+                im = A(c, "im")
             kw = {"inputmean": im, "calcerr": c["calcerr"], "sdev": c["sdev"]}
             if c.get("omit_defaults"):
                 kw = {k: v for k, v in kw.items() if not (v is None or v is False)}
@@ -379,7 +513,7 @@ class WMedian(E):
             cs.append({"x": [5.0, 4.0, 3.0], "w": [0.0, 0.0, 0.0], "family": "all-zero-weights"})
             cs.append({"x": 5.0, "w": 2.0, "ct": {"x": "scalar", "w": "scalar"}, "family": "scalar-input"})
             cs.append({"x": [3.0, 1.0, 2.0, 4.0], "w": [1.0, 2.0, 3.0, 1.0], "ct": {"x": "i4", "w": "i8"}, "family": "int-arrays"})
-        for _ in range(ctx.n(300, 1800) if round == 0 else 150):
+        for _ in range(ctx.n(240, 1800) if round == 0 else 150):
             n = r.choice(sizes(ctx, big=False))
             dk = r.choice(["ints", "ints", "gauss", "wide", "unit", "const"])
             wk = r.choice(WEIGHT_KINDS)
@@ -392,7 +526,7 @@ class WMedian(E):
 
     def impl(self, c):
         import esutil.stat as st
-        return guarded(lambda: float(st.wmedian(mk(c["x"], ct_of(c, "x")), mk(c["w"], ct_of(c, "w")))))
+        return guarded(lambda: float(st.wmedian(A(c, "x"), A(c, "w"))))
 
     def term(self, c, out):
         return "v_wmedian %s %s %s" % (qs(_l(c["x"])), qs(_l(c["w"])), cres(out, q1))
@@ -418,7 +552,8 @@ def _clip_case(r, ctx, weighted=None):
         weighted = r.random() < 0.45
     w = gen_weights(r, n, r.choice(WEIGHT_KINDS)) if weighted else None
     nsig = r.choice([r.uniform(0.5, 6.0), r.uniform(0.5, 3.0), r.choice([0.5, 1.0, 1.5, 2.0, 2.5, 3.0, 4.0, 6.0])])
-    c = {"nsig": nsig, "niter": r.choice([r.randrange(0, 11), r.randrange(0, 11), 4]), "omit_defaults": r.random() < 0.5, "ct": {}}
+    c = {"nsig": nsig, "niter": r.choice([r.randrange(0, 11), r.randrange(0, 11), 4]), "omit_defaults": r.random() < 0.5, "ct": {},
+         "ret": r.choice(["full", "full", "full", "noerr", "noidx", "plain"]), "verbose": r.random() < 0.1}
     c["x"], c["ct"]["x"] = prep(r, x)
     c["w"] = None
     if w is not None:
@@ -469,7 +604,7 @@ class SigmaClip(E):
                 if t["w"] is not None:
                     t["ct"]["w"] = r.choice(["i8", "list"])
                 cs.append(t)
-        for _ in range(ctx.n(170, 1000) if round == 0 else 80):
+        for _ in range(ctx.n(140, 1000) if round == 0 else 80):
             cs.append(_clip_case(r, ctx))
         return cs
 
@@ -478,12 +613,35 @@ class SigmaClip(E):
         import esutil.stat as st
 
         def f():
-            w = None if c["w"] is None else mk(c["w"], ct_of(c, "w"))
+            import contextlib
+            import io
+            w = None if c["w"] is None else A(c, "w")
+            x = A(c, "x")
             kw = {"niter": c["niter"], "nsig": c["nsig"]}
-            if c.get("omit_defaults"):       # the documented defaults ("defaults to 4") are not passed
+            ex = {}
+            if c.get("omit_defaults"):       # the documented defaults ("defaults to 4") are not passed, nor is `extra`
                 kw = {k: v for k, v in kw.items() if v != 4}
-            m, s, e, idx = st.sigma_clip(mk(c["x"], ct_of(c, "x")), weights=w,
-                                         get_err=True, get_indices=True, silent=True, extra={}, **kw)
+            else:
+                kw["extra"] = ex
+            ret = c.get("ret", "full")       # which of the optional return values are asked for
+            opts = {"full": (True, True), "noerr": (False, True), "noidx": (True, False), "plain": (False, False)}[ret]
+            with contextlib.redirect_stdout(io.StringIO()):
+                res = st.sigma_clip(x, weights=w, get_err=opts[0], get_indices=opts[1], silent=True,
+                                    verbose=bool(c.get("verbose")), **kw)
+            if ret != "full":
+                # the optional return values do not change the others: compare with the full call on the same objects
+                m, s, e, idx = st.sigma_clip(x, weights=w, get_err=True, get_indices=True, silent=True, extra={},
+                                             niter=c["niter"], nsig=c["nsig"])
+                part = [float(res[0]), float(res[1])] + ([float(res[2])] if opts[0] else []) + \
+                       ([[int(i) for i in res[-1]]] if opts[1] else [])
+                want = [float(m), float(s)] + ([float(e)] if opts[0] else []) + ([[int(i) for i in idx]] if opts[1] else [])
+                if len(res) != len(want) or not _same_out(part, want):
+                    raise RuntimeError("sigma_clip(get_err=%s, get_indices=%s) returned %r, the full call %r" % (
+                        opts[0], opts[1], part, want))
+                if "extra" in kw and [int(i) for i in ex.get("indices", [])] != [int(i) for i in idx]:
+                    raise RuntimeError("extra['indices'] differs from the returned indices")
+            else:
+                m, s, e, idx = res
             return [float(m), float(s), float(e), [int(i) for i in idx]]
         return guarded(f)
 
@@ -538,11 +696,38 @@ def _table(r, n, kind):
 class InterpLin(E):
     name = "interplin"
     shard = 25
+    seq_args = ("x", "v", "u")
+
+    def seq_ok(self, c):
+        return isinstance(c["u"], list) and len(c["u"]) >= 1 and len(c["x"]) >= 2
+
+    def variant(self, r, c):
+        """the table rewritten in place: nodes scaled (x *= 10) or moved inside their segments (same length, same end
+        nodes), values refilled; at least one of x, v changes; the queries follow the nodes"""
+        d = copy.deepcopy(c)
+        incr = lambda t: all(a < b for a, b in zip(t, t[1:]))
+        xm = r.choice(["scale10", "interior", "same", "same"])
+        x = c["x"]
+        if xm == "scale10":
+            y = [t * 10.0 for t in x]
+        elif xm == "interior":
+            y = [x[0]] + [x[i] + (x[i + 1] - x[i]) / 2.0 for i in range(1, len(x) - 1)] + [x[-1]]
+        else:
+            y = x
+        y = _fit(y, ct_of(c, "x"))
+        if y is None or not incr(y) or y == x:
+            y, xm = x, "same"
+        d["x"] = y
+        d["v"], vm = tx_vec(r, c["v"], ct_of(c, "v"), ("reverse", "negshift", "scale") if xm == "same" else ("reverse", "negshift", "scale", "keep"))
+        if xm == "scale10":
+            u = _fit([t * 10.0 for t in c["u"]], ct_of(c, "u"))
+            d["u"] = c["u"] if u is None else u
+        return d, "x=%s,v=%s" % (xm, vm)
 
     def cases(self, ctx, round=0):
         r = ctx.rng
         cs = []
-        for _ in range(ctx.n(300, 3000) if round == 0 else 150):
+        for _ in range(ctx.n(230, 3000) if round == 0 else 150):
             n = r.choice([2, 2, 3, 4, 5, 8, 13, 30] + ([] if ctx.quick() else [60, 150]))
             kind = r.choice(["gauss", "ints", "tight", "wide"])
             x, v = _table(r, n, kind)
@@ -574,6 +759,8 @@ class InterpLin(E):
             cs.append({"v": [1.0], "x": [0.0], "u": [0.5], "family": "rejected-one-node"})
             cs.append({"v": [1.0, 3.0, 2.0], "x": [0.0, 1.0, 2.0], "u": [], "family": "no-queries"})
             cs.append({"v": [1.0, 3.0, 2.0], "x": [0.0, 1.0, 2.0], "u": 0.5, "ct": {"u": "scalar"}, "family": "scalar-query"})
+            cs.append({"v": [1.0, 3.0, 2.0], "x": [-1.0, 0.0, 2.0], "u": [0.0, -0.0, -1.0, 2.0], "family": "zero-node"})
+            cs.append({"v": [0.0, 0.0, 0.0], "x": [-1.0, 0.0, 2.0], "u": [0.5, -3.0, 7.0], "family": "zero-values"})
             cs.append({"v": [1.0, 9.0, 4.0, 16.0], "x": [0.0, 3.0, 4.0, 8.0], "u": [-2.0, 1.0, 4.0, 7.0, 11.0],
                        "ct": {"v": "i8", "x": "i4", "u": "i8"}, "family": "int-arrays"})
         return cs
@@ -581,7 +768,7 @@ class InterpLin(E):
     def impl(self, c):
         import numpy as np
         import esutil.stat as st
-        return guarded(lambda: canon(st.interplin(mk(c["v"], ct_of(c, "v")), mk(c["x"], ct_of(c, "x")), mk(c["u"], ct_of(c, "u")))))
+        return guarded(lambda: canon(st.interplin(A(c, "v"), A(c, "x"), A(c, "u"))))
 
     def term(self, c, out):
         # differences of float32 table entries are evaluated in float32
@@ -603,7 +790,7 @@ class GetStats(E):
     def cases(self, ctx, round=0):
         r = ctx.rng
         cs = []
-        for _ in range(ctx.n(140, 1200) if round == 0 else 80):
+        for _ in range(ctx.n(115, 1200) if round == 0 else 80):
             mode = r.choice(["plain", "weights", "clip", "clip", "clip+weights", "2d-plain", "2d-weights"])
             if mode.startswith("2d"):
                 n, d = r.choice([1, 2, 3, 5, 8, 20]), r.choice([1, 2, 3])
@@ -622,6 +809,7 @@ class GetStats(E):
                         c["nsig"] = b["nsig"]
                     if which in ("niter", "both"):
                         c["niter"] = b["niter"]
+            c["doprint"] = r.random() < 0.15
             c["family"] = mode + _ctfam(c)
             cs.append(c)
         if round == 0:
@@ -644,8 +832,13 @@ class GetStats(E):
             if kw:
                 kw["extra"] = ex
                 kw["silent"] = True
-            w = None if c["w"] is None else mk(c["w"], ct_of(c, "w"))
-            g = st.get_stats(mk(c["x"], ct_of(c, "x")), weights=w, **kw)
+            import contextlib
+            import io
+            w = None if c["w"] is None else A(c, "w")
+            if c.get("doprint"):
+                kw["doprint"] = True
+            with contextlib.redirect_stdout(io.StringIO()):
+                g = st.get_stats(A(c, "x"), weights=w, **kw)
             return [canon(g["min"]), canon(g["max"]), canon(g["mean"]), canon(g["std"]), canon(g["err"]),
                     [int(i) for i in ex.get("indices", [])]]
         return guarded(f)
@@ -693,14 +886,37 @@ def _cov(r, n, kind):
 COV_KINDS = ["psd", "scaled", "ints", "diag", "indefinite"]
 
 
+def _cov_variant(r, m, ct):
+    n = len(m)
+    for mode in r.sample(["rescale", "negoff"], 2):
+        if mode == "rescale":               # D m D with D = diag(2^k): symmetric, positive diagonal, exact
+            ks = [r.choice([0, 1] if ct in ("i4", "i8") else [-1, 0, 1, 2]) for _ in range(n)]
+            y = [[m[i][j] * 2.0 ** (ks[i] + ks[j]) for j in range(n)] for i in range(n)]
+        else:
+            y = [[m[i][j] if i == j else -m[i][j] for j in range(n)] for i in range(n)]
+        y = _fit(y, ct)
+        if y is not None and y != m:
+            return y, mode
+    return [[m[i][j] * 4.0 for j in range(n)] for i in range(n)] if ct not in ("i4",) else m, "x4"
+
+
 class Cov2Cor(E):
     name = "cov2cor"
     shard = 40
+    seq_args = ("cov",)
+
+    def seq_ok(self, c):
+        return len(c["cov"]) >= 2 and all(c["cov"][i][i] > 0 for i in range(len(c["cov"])))
+
+    def variant(self, r, c):
+        d = copy.deepcopy(c)
+        d["cov"], t = _cov_variant(r, c["cov"], ct_of(c, "cov"))
+        return d, "cov=" + t
 
     def cases(self, ctx, round=0):
         r = ctx.rng
         cs = []
-        for _ in range(ctx.n(150, 1500) if round == 0 else 80):
+        for _ in range(ctx.n(120, 1500) if round == 0 else 80):
             n, kind = r.randrange(1, 7), r.choice(COV_KINDS)
             c = {"ct": {}}
             sym = lambda m: all(m[i][j] == m[j][i] for i in range(len(m)) for j in range(len(m))) and all(m[i][i] > 0 for i in range(len(m)))
@@ -716,7 +932,7 @@ class Cov2Cor(E):
     def impl(self, c):
         import numpy as np
         import esutil.stat as st
-        return guarded(lambda: canon(st.cov2cor(mk(c["cov"], ct_of(c, "cov")))))
+        return guarded(lambda: canon(st.cov2cor(A(c, "cov"))))
 
     def term(self, c, out):
         # float32 scalars: cxx * cyy, sqrt and the quotient are evaluated in float32
@@ -740,7 +956,7 @@ class RoundTrip(Cov2Cor):
         import esutil.stat as st
 
         def f():
-            cov = mk(c["cov"], ct_of(c, "cov"))
+            cov = A(c, "cov")
             cor = st.cov2cor(cov)
             return canon(st.cor2cov(cor, np.sqrt(np.diag(cov))))
         return guarded(f)
@@ -756,11 +972,25 @@ class RoundTrip(Cov2Cor):
 class Cor2Cov(E):
     name = "cor2cov"
     shard = 40
+    seq_args = ("cor", "d")
+
+    def seq_ok(self, c):
+        return len(c["d"]) >= 2 and len(c["cor"]) == len(c["d"])
+
+    def variant(self, r, c):
+        d = copy.deepcopy(c)
+        m, n = c["cor"], len(c["cor"])
+        y = _fit([[m[i][j] if i == j else -m[i][j] for j in range(n)] for i in range(n)], ct_of(c, "cor"))
+        t1 = "negoff" if (y is not None and y != m and r.random() < 0.7) else "same"
+        if t1 == "negoff":
+            d["cor"] = y
+        d["d"], t2 = tx_vec(r, c["d"], ct_of(c, "d"), ("reverse", "scale", "interior"))
+        return d, "cor=%s,d=%s" % (t1, t2)
 
     def cases(self, ctx, round=0):
         r = ctx.rng
         cs = []
-        for _ in range(ctx.n(120, 1200) if round == 0 else 80):
+        for _ in range(ctx.n(100, 1200) if round == 0 else 80):
             n = r.randrange(1, 7)
             cor = [[0.0] * n for _ in range(n)]
             for i in range(n):
@@ -780,7 +1010,7 @@ class Cor2Cov(E):
     def impl(self, c):
         import numpy as np
         import esutil.stat as st
-        return guarded(lambda: canon(st.cor2cov(mk(c["cor"], ct_of(c, "cor")), mk(c["d"], ct_of(c, "d")))))
+        return guarded(lambda: canon(st.cor2cov(A(c, "cor"), A(c, "d"))))
 
     def term(self, c, out):
         # a product of float32 scalars only is evaluated in float32
@@ -797,11 +1027,12 @@ class Cor2Cov(E):
 class Boxcar(E):
     name = "boxcar_average"
     shard = 40
+    seq_args = ("x",)
 
     def cases(self, ctx, round=0):
         r = ctx.rng
         cs = []
-        for _ in range(ctx.n(150, 1500) if round == 0 else 80):
+        for _ in range(ctx.n(120, 1500) if round == 0 else 80):
             n = r.choice([1, 2, 3, 5, 8, 20, 40])
             c = {"N": r.choice([1, 2, 3, 5, n, n + 1, n + 3, max(1, n - 1)]), "ct": {}}
             c["x"], c["ct"]["x"] = prep(r, gen_data(r, n, r.choice(DATA_KINDS)))
@@ -816,7 +1047,7 @@ class Boxcar(E):
     def impl(self, c):
         import numpy as np
         import esutil.stat as st
-        return guarded(lambda: canon(st.boxcar_average(mk(c["x"], ct_of(c, "x")), c["N"])))
+        return guarded(lambda: canon(st.boxcar_average(A(c, "x"), c["N"])))
 
     def term(self, c, out):
         return "v_boxcar %s %s %s" % (qs(c["x"]), cz(c["N"]), cres(out, qs))
@@ -835,7 +1066,23 @@ ENTRIES = [WMom(), WMedian(), SigmaClip(), InterpLin(), GetStats(), Cov2Cor(), C
 # differential loop (runner.differential with sharded evaluation and the borderline verdict)
 # ----------------------------------------------------------------------------
 def run_entry(ctx, ent, cases, tag):
-    outs = [ent.impl(c) for c in cases]
+    outs = [run_impl(ent, c) for c in cases]
+    # the routines are functions of their arguments: a step of a sequence must return exactly what the same call
+    # returns when made alone on fresh objects (made afterwards, so that it does not disturb the sequences)
+    hd = []
+    for c, o in zip(cases, outs):
+        if c.get("hist"):
+            alone = ent.impl(_strip(c))
+            ctx.count("history_steps:" + ent.name)
+            if not _same_out(o, alone):
+                hd.append((c, o, alone))
+    if hd:
+        ctx.count("history_dependent:" + ent.name, len(hd))
+        c, o, alone = min(hd, key=lambda t: len(json.dumps(t[0], default=str)))
+        ctx.violation("%s: the result depends on the call history (same argument objects rewritten in place; %d step(s)): "
+                      "in the sequence %r, alone %r" % (ent.name, len(hd), _short(o), _short(alone)),
+                      {"kind": "failing-input", "entry": ent.name, "case": c, "impl_output": o, "alone_output": alone,
+                       "class": None}, found_input=True)
     # spread the expensive (large) cases over the shards
     order = list(range(len(cases)))
     order.sort(key=lambda i: -len(json.dumps(cases[i])))
@@ -868,7 +1115,7 @@ def differential(ctx, entries, replay_case=None):
                 continue
             cases = [replay_case["case"]]
         else:
-            cases = corpus_cases(ctx.pid, ent.name) + list(ent.cases(ctx, 0))
+            cases = corpus_cases(ctx.pid, ent.name) + list(ent.cases(ctx, 0)) + make_sequences(ent, ctx, ctx.n(8, 40))
         for c in cases:
             c.setdefault("entry", ent.name)
         res = run_entry(ctx, ent, cases, "d_" + ent.name)
